@@ -65,7 +65,7 @@ def run_xlift(unit, tier, seed):
     env = dict(os.environ)
     env["PYTHONPATH"] = ROOT + (os.pathsep + REPO if REPO != "/repo" else "")
     p = subprocess.run([sys.executable, "-m", "vf.xlift.runner", unit["module"], unit["func"], json.dumps(kwargs)],
-                       capture_output=True, text=True, cwd=ROOT, env=env, timeout=unit.get("timeout", 3000))
+                       capture_output=True, text=True, cwd=ROOT, env=env, timeout=unit.get("timeout", 900))
     if "@@RESULT@@" not in p.stdout:
         return dict(status="crash", error=(p.stderr or p.stdout)[-2000:], obligations=[])
     rec = json.loads(p.stdout.split("@@RESULT@@")[1])
